@@ -584,5 +584,75 @@ def replay_C17(w, clause):
     return {"reproduced": False, "detail": "bytes equal the reference batch"}
 
 
+def replay_C18(w, clause):
+    import datetime
+
+    import kio.records.readers as R
+    import kio.records.writers as W
+
+    from .props import reclib
+
+    data = bytes.fromhex(w["bytes"])
+    kind = w["kind"]
+    if kind == "faithful":
+        ref = reclib.decode_batch(data)
+        try:
+            rb = R.read_batch(io.BytesIO(data + b"\x00"))
+        except Exception as e:
+            return {"reproduced": True, "sig": {"kind": "well_formed_batch_rejected", **_exc_sig(e)}, "detail": f"{type(e).__name__}: {e} on {data[:80].hex()}"}
+        for k in ("base_offset", "batch_length", "partition_leader_epoch", "crc", "attributes", "last_offset_delta", "base_timestamp", "max_timestamp", "producer_id", "producer_epoch", "base_sequence"):
+            if getattr(rb, k) != ref[k]:
+                return {"reproduced": True, "sig": {"kind": "header_field_differs", "field": k}, "detail": f"{k}: encoded {ref[k]} read {getattr(rb, k)}"}
+        if len(rb.records) != len(ref["records"]):
+            return {"reproduced": True, "sig": {"kind": "record_count"}, "detail": "record count differs"}
+        dropped = False
+        for r, e in zip(rb.records, ref["records"]):
+            if (r.attributes, r.offset, r.key, r.value, [(h.key, h.value) for h in r.headers]) != (e["attributes"], e["offset"], e["key"], e["value"], e["headers"]):
+                return {"reproduced": True, "sig": {"kind": "record_field_differs"}, "detail": f"record {r!r} vs encoded {e!r}"[:400]}
+            us = ((r.timestamp - reclib.EPOCH).days * 86400 + (r.timestamp - reclib.EPOCH).seconds) * 10**6 + (r.timestamp - reclib.EPOCH).microseconds
+            if us != e["timestamp_ms"] * 1000:
+                if us == (e["timestamp_ms"] // 1000) * 10**6:
+                    dropped = (e["timestamp_ms"], us)
+                else:
+                    return {"reproduced": True, "sig": {"kind": "record_timestamp_wrong"}, "detail": f"encoded {e['timestamp_ms']} ms, read {us} us"}
+        buf = io.BytesIO()
+        try:
+            W.write_batch(buf, rb)
+        except Exception as ex:
+            return {"reproduced": True, "sig": {"kind": "read_batch_result_not_writable", **_exc_sig(ex)}, "detail": f"{type(ex).__name__}: {ex}"}
+        if dropped:
+            return {"reproduced": True, "sig": {"kind": "record_timestamp_subsecond_dropped"},
+                    "detail": f"record timestamp encoded as {dropped[0]} ms is returned as {dropped[1]} us (milliseconds dropped); rewriting the batch then differs from the input"}
+        if buf.getvalue() != data:
+            return {"reproduced": True, "sig": {"kind": "rewrite_differs"}, "detail": f"write_batch(read_batch(b)) != b: {buf.getvalue()[:80].hex()} vs {data[:80].hex()}"}
+        return {"reproduced": False, "detail": "faithful"}
+    if kind == "corrupt":
+        d = bytearray(data)
+        if d[w["pos"]] == w["val"]:
+            return {"reproduced": False, "detail": "replacement equals the original byte"}
+        d[w["pos"]] = w["val"]
+        try:
+            R.read_batch(io.BytesIO(bytes(d)))
+        except Exception:
+            return {"reproduced": False, "detail": "corruption detected"}
+        return {"reproduced": True, "sig": {"kind": "corruption_undetected", "region": "crc" if w["pos"] < 21 else "body"}, "detail": f"byte {w['pos']} set to {w['val']}: read_batch returned a batch"}
+    if kind == "magic":
+        d = bytearray(data)
+        d[16] = w["magic"]
+        try:
+            R.read_batch(io.BytesIO(bytes(d)))
+        except ValueError:
+            return {"reproduced": False, "detail": "ValueError"}
+        except Exception as e:
+            return {"reproduced": True, "sig": {"kind": "wrong_magic_other_exception", **_exc_sig(e)}, "detail": f"{type(e).__name__}"}
+        return {"reproduced": True, "sig": {"kind": "wrong_magic_accepted"}, "detail": f"magic {w['magic']} accepted"}
+    k = w["cut"]
+    try:
+        R.read_batch(io.BytesIO(data[:k]))
+    except Exception:
+        return {"reproduced": False, "detail": "truncation raises"}
+    return {"reproduced": True, "sig": {"kind": "truncated_batch_accepted"}, "detail": f"first {k} of {len(data)} bytes decode to a batch"}
+
+
 if __name__ == "__main__":
     sys.exit(main(sys.argv[1:]))
